@@ -14,6 +14,21 @@ def close_pred(ctx: Ctx):
     return pred
 
 
+def r_who_server(ctx: Ctx, rule: str) -> None:
+    """WHO(write self._server) = {__init__ (None), serve_forever (the server just started)}"""
+    rep = ctx.rep
+    rep.rule(rule, "WHO(write ControlServer._server) = {__init__, serve_forever}: is_serving() - the condition of every session's listen loop - "
+                   "speaks for the serving cycle that is running, not for an earlier one that is winding up")
+    wr = [e for e in ctx.effects(fields=["_server"], kinds=["assign", "aug", "del"]) if e.path.endswith("._server") and e.node.func.module.name == "control.server"]
+    rep.floor(rule, "writes of the server attribute", len(wr), 2)
+    for e in wr:
+        # (judged on the function the store is written in - a helper spliced into it counts as that function; everything that merely runs
+        #  on behalf of serve_forever, like the serving task's final callback, runs when a cycle ENDS)
+        writer = ctx.fname(e.node.root if e.node.root is not None else e.node.func)
+        rep.ob(rule, "the server attribute is written only by the constructor and by serve_forever", writer in {"__init__", "serve_forever"}, node=e.node,
+               detail=f"written by {writer}")
+
+
 def check(ctx: Ctx) -> None:
     rep = ctx.rep
     prog = ctx.prog
@@ -41,14 +56,7 @@ def check(ctx: Ctx) -> None:
     # WHO(write self._server) = {__init__ (None), serve_forever (the server just started)}: the attribute belongs to the ControlServer, not to
     # one serving cycle - a reset by anything that runs when an EARLIER cycle winds up (final callback, a session ending) would make
     # is_serving() false for the cycle that is running now, and every session loop of it would end
-    wr = [e for e in ctx.effects(fields=["_server"], kinds=["assign", "aug", "del"]) if e.path.endswith("._server") and e.node.func.module.name == "control.server"]
-    rep.floor("R19.1", "writes of the server attribute", len(wr), 2)
-    for e in wr:
-        # (judged on the function the store is written in - a helper spliced into it counts as that function; everything that merely runs
-        #  on behalf of serve_forever, like the serving task's final callback, runs when a cycle ENDS)
-        writer = ctx.fname(e.node.root if e.node.root is not None else e.node.func)
-        rep.ob("R19.1", "the server attribute is written only by the constructor and by serve_forever", writer in {"__init__", "serve_forever"}, node=e.node,
-               detail=f"written by {writer}")
+    r_who_server(ctx, "R19.1")
     for c in ctx.distinct_sites(ctx.nodes(f, lambda n: ctx.is_call_to(n, "_get_server_instance"))):
         a = c.ast.args[0] if c.ast.args else None
         ok = isinstance(a, ast.Attribute) and a.attr == "_client_connected_cb"
@@ -245,6 +253,10 @@ def check(ctx: Ctx) -> None:
     # positive/negative controls for the effect table
     ctl = [e for e in ctx.eff.all() if e.kind == "close" and e.container == "StreamWriter"]
     rep.floor("R19.6", "StreamWriter.close sites in the package (server side + client side)", len(ctl), 2)
+    # "the bundled CLI client included": the two ends agree on what a blank line means
+    from .control import r_blank_agreement
+    r_blank_agreement(ctx, "R19.11")
+
 
 
 def r_no_shared_lock(ctx: Ctx, rule: str) -> None:
